@@ -4,7 +4,7 @@
 From Coq Require Import ZArith List Bool Lia ZifyBool.
 From PCB Require Import lib.Result lib.PyInt lib.Harness lib.MBFPrims gen.Gen_mbf model.MBF model.MBFArith
   proofs.MBF_base proofs.MBF_compare proofs.MBF_convert proofs.MBF_round proofs.MBF_values
-  proofs.MBFArith_norm proofs.MBFArith_mul proofs.MBFArith_add proofs.MBFArith_div.
+  proofs.MBFArith_norm proofs.MBFArith_mul proofs.MBFArith_add proofs.MBFArith_div proofs.MBFArith_addbound.
 Import ListNotations.
 Open Scope Z_scope.
 Ltac Zify.zify_post_hook ::= Z.to_euclidean_division_equations.
@@ -733,3 +733,64 @@ Proof.
     + apply Z.ltb_ge. replace (ma * B * 1 * (sc * sc)) with (ma * B * (sc * sc)) by lia. lia.
   - apply (host_of_sval _ _ _ _ _ _ _ Hs).
 Qed.
+
+(* ------------------------------------------------------------------------------------------------ *)
+(* C04 for addition and subtraction *)
+
+Lemma val_post_unscale t strict w den N D c rh rs : 0 < c -> 0 < D ->
+  val_post t strict w den (N * c) (D * c) rh rs -> val_post t strict w den N D rh rs.
+Proof.
+  intros Hc HD [H1 H2].
+  assert (Habs : Z.abs (N * c) = Z.abs N * c) by (rewrite Z.abs_mul, (Z.abs_eq c) by lia; reflexivity).
+  assert (Hlt : (N * c <? 0) = (N <? 0)) by (destruct (Z.ltb_spec (N * c) 0), (Z.ltb_spec N 0); try reflexivity; exfalso; nia).
+  split.
+  - destruct rh as [r|e|x|]; try exact H1.
+    + destruct H1 as (E & Ht & Hok & Hrest). split; [exact E|]. split; [exact Ht|]. split; [exact Hok|].
+      destruct (is_zero_value r).
+      * rewrite Habs in Hrest. nia.
+      * unfold err_le in *.
+        replace (value_scaled r * (D * c) - N * c) with ((value_scaled r * D - N) * c) in Hrest by lia.
+        rewrite Z.abs_mul, (Z.abs_eq c) in Hrest by lia.
+        destruct strict; nia.
+    + destruct H1 as (E & Hm & Hrs). split; [exact E|]. split; [rewrite Habs in Hm; nia|]. rewrite Hlt in Hrs. exact Hrs.
+  - intros Hbig. apply H2. rewrite Habs. nia.
+Qed.
+
+Lemma v_addsub_post (sub : bool) x y : value_ok x -> value_ok y -> is_num x = true -> is_num y = true ->
+  let N := if sub then value_scaled x - value_scaled y else value_scaled x + value_scaled y in
+  val_post (widest x y) false 2 1 N 1
+           (if sub then v_sub true x y else v_add true x y) (if sub then v_sub false x y else v_add false x y).
+Proof.
+  intros Hx Hy Nx Ny N.
+  destruct (promote_spec x y Hx Hy Nx Ny) as (xa & ya & Hxa & Hya & Vx & Vy & _ & _ & Harith). cbv zeta in *.
+  set (t := widest x y) in *. pose proof (widest_cases x y) as Ht. fold t in Ht.
+  pose proof (cls_ok t) as [HC _]. destruct (tag_cases t Ht) as (_ & _ & _ & _ & Hsc).
+  apply (val_post_unscale t false 2 1 N 1 (scale_of t) _ _ Hsc ltac:(lia)).
+  set (Nb := if sub then f_sval (cls t) xa - f_sval (cls t) ya else f_sval (cls t) xa + f_sval (cls t) ya).
+  assert (HN : N * scale_of t = Nb * (scale_of t * scale_of t)).
+  { unfold N, Nb. rewrite <- Vx, <- Vy. destruct sub; lia. }
+  assert (HD : 1 * scale_of t = 1 * scale_of t) by reflexivity.
+  destruct sub.
+  - unfold v_sub. rewrite !v_num2_arith, !Harith by assumption. unfold f_sub.
+    destruct (isub_sval (cls t) xa ya HC Hxa Hya) as [Hs Hneg].
+    apply (val_of_sval t false 2 1 Nb 1 _ _ _ _ Ht ltac:(lia) ltac:(lia) ltac:(lia) Hs HN HD).
+    + intros Er. f_equal. unfold add_den_neg, den_negate. rewrite (Hneg Er). unfold Nb.
+      destruct (Z.ltb_spec (f_sval (cls t) xa - f_sval (cls t) ya) 0), (Z.ltb_spec (N * scale_of t) 0); try reflexivity; exfalso;
+        rewrite HN in *; unfold Nb in *; nia.
+    + apply (host_of_sval _ _ _ _ _ _ _ Hs).
+  - rewrite !v_add_arith, !Harith by assumption. unfold f_add.
+    destruct (iadd_sval (cls t) xa ya HC Hxa Hya) as [Hs Hneg].
+    apply (val_of_sval t false 2 1 Nb 1 _ _ _ _ Ht ltac:(lia) ltac:(lia) ltac:(lia) Hs HN HD).
+    + intros Er. f_equal. unfold add_den_neg. rewrite (Hneg Er). unfold Nb.
+      destruct (Z.ltb_spec (f_sval (cls t) xa + f_sval (cls t) ya) 0), (Z.ltb_spec (N * scale_of t) 0); try reflexivity; exfalso;
+        rewrite HN in *; unfold Nb in *; nia.
+    + apply (host_of_sval _ _ _ _ _ _ _ Hs).
+Qed.
+
+Theorem v_add_post x y : value_ok x -> value_ok y -> is_num x = true -> is_num y = true ->
+  val_post (widest x y) false 2 1 (value_scaled x + value_scaled y) 1 (v_add true x y) (v_add false x y).
+Proof. exact (v_addsub_post false x y). Qed.
+
+Theorem v_sub_post x y : value_ok x -> value_ok y -> is_num x = true -> is_num y = true ->
+  val_post (widest x y) false 2 1 (value_scaled x - value_scaled y) 1 (v_sub true x y) (v_sub false x y).
+Proof. exact (v_addsub_post true x y). Qed.
